@@ -1152,12 +1152,12 @@ func TestGen(t *testing.T) {
 type driver struct {
 	infraRetried int  // runs repeated from the restored pre-state because the infrastructure failed
 	infraDropped int  // runs given up after 3 such attempts
-	hung   bool // an operation never returned: stop
-	t      *testing.T
-	cl     *ckit.Cluster
-	r      *hx.Rng
-	out    *hx.Out
-	budget int
+	hung         bool // an operation never returned: stop
+	t            *testing.T
+	cl           *ckit.Cluster
+	r            *hx.Rng
+	out          *hx.Out
+	budget       int
 }
 
 // step runs one operation fault-free and then, from the restored pre-state, once per fault address
